@@ -10,11 +10,11 @@ CLAIMED = {
  "C05": ("§6 C05", "F,H", "seeded simulation with fault injection at the preprocessor seam; twin-estimator reference"),
  "C07": ("§6 C07, §12.1", "R,H", "seeded simulation of the PRNG draw stream (integer seeds, recorded and scripted draw programs), ambient state and call histories on one live Constraints object; soundness predicates over returned constraints"),
  "C08": ("§6 C08, §12.1", "R,H", "seeded simulation of PRNG streams/ambient state/earlier fits; differential reference (base learner on oracle-formed constraints from the Constraints output) and unlabeled-points-moved repetition"),
- "C09": ("§6 C09, §12.1", "R,F", "seeded simulation of the eigensolver seams (ARPACK start vector, forced non-convergence, forced failure of the dense solver: all three links of the fallback chain) against O(n^2) reference formulas"),
+ "C09": ("§6 C09, §12.1", "R,F", "seeded simulation of the eigensolver seams (ARPACK start vector, forced non-convergence, forced failure of the dense solver: all three links of LFDA's fallback chain; forced failure of Covariance's pseudo-inverse) against O(n^2) reference formulas"),
  "C13": ("§6 C13, §12.1", "F,R,H", "seeded simulation with fault injection at the graphical-lasso seam and earlier fits of the same object; lower-objective witness from an independent solver"),
- "C15": ("§6 C15", "R", "seeded simulation with recorded and scripted PRNG draw programs against a reference dual-averaging model"),
+ "C15": ("§6 C15", "R", "seeded simulation with recorded and scripted PRNG draw programs and fault injection at the local-LDA seam against a reference dual-averaging model"),
  "C16": ("§6 C16", "H,F", "seeded history simulation; per-instance brute force over all cut-offs; empty seam trace before rejection"),
- "C17": ("§6 C17, §12.1", "H,R,F", "seeded history simulation (API histories, pickle restarts, ambient perturbation, caller-buffer reuse, shared stores and arrays, crash points: fits interrupted at drawn line events and crash-point sweeps) against a fresh-object replay reference model"),
+ "C17": ("§6 C17, §12.1", "H,R,F", "seeded history simulation (API histories, pickle restarts, ambient perturbation, caller-side buffer / store / label edits, shared stores and arrays, crash points: fits interrupted at drawn line events, crash-point sweeps and a per-batch ENUMERATION of the first / middle / last line event of every function of every estimator's fit) against a fresh-object replay reference model computed in a pristine process"),
  "C18": ("§6 C18, §12.1", "H", "exhaustive (estimator x parameter) sweep + seeded set_params/clone/pickle-restart/failed-fit/interrupted-fit histories"),
  "C20": ("§6 C20", "R,F", "seeded simulation of seeds/ambient state and Cholesky/eigen fallback paths; numpy reference linear algebra"),
 }
@@ -73,7 +73,8 @@ man = dict(
   engines=[dict(name="mlsim", path="mlsim", serves_properties=[c["property_id"] for c in checks],
                 kind_free_text="in-process deterministic simulator: seeded plan generator, history machine over live estimators, "
                                "seams for PRNG/preprocessor/ARPACK and dense eigensolver/graphical-lasso/clock/pickle-restart/"
-                               "crash points (sys.settrace line events inside metric_learn), reference-model oracles, "
+                               "crash points (sys.settrace line events inside metric_learn), process isolation (one forked process per run, "
+                               "reference fits in a pristine process), reference-model oracles, "
                                "shrinker and exact replay")],
   checks=checks,
   not_applicable=sorted(na, key=lambda x: x["property_id"]),
